@@ -457,7 +457,9 @@ class Hostname(ConfigValue[str]):
 
         socket_path = path.get_unix_socket_path(raw_value)
         if socket_path is not None:
-            path_str = Path(not self._required).deserialize(str(socket_path))
+            # The value has been decoded above; encode it again so that
+            # Path.deserialize() does not decode it a second time.
+            path_str = Path(not self._required).deserialize(encode(str(socket_path)))
             return f"unix:{path_str}"
 
         try:
